@@ -2,6 +2,9 @@ package c04
 
 import (
 	"crypto/cipher"
+	"runtime/debug"
+	"strings"
+	"unsafe"
 
 	"verif/engine"
 )
@@ -10,22 +13,89 @@ import (
 // them, so it ends exactly at a PROT_NONE page (over-reads / over-writes crash the worker, which the
 // engine records against the case) and the bytes in front of it are checked as a canary.
 type work struct {
-	pool         engine.Pool
-	out, ip, ct  []byte
-	nonce, aad   []byte
-	maxMsg       int
-	outDirtyFrom int
+	pool        engine.Pool
+	out, ip, ct []byte
+	nonce, aad  []byte
+	maxMsg      int
+	pages       []guardPage
+}
+
+// guardPage remembers where the PROT_NONE page behind a guard buffer starts.
+type guardPage struct {
+	name  string
+	start uintptr
+}
+
+// get allocates a guard buffer and registers its guard page under a name used in fault reports.
+func (w *work) get(name string, n int) []byte {
+	if n < 1 {
+		n = 1
+	}
+	b := w.pool.Get(n)
+	w.pages = append(w.pages, guardPage{name, uintptr(unsafe.Pointer(&b[0])) + uintptr(len(b))})
+	return b
+}
+
+// guarded runs one library call. A fault on one of the guard pages (the library read or wrote past the end of a
+// slice it was given) is turned into a panic by the runtime (debug.SetPanicOnFault) and reported under
+// key+"/access-past-end-of-slice"; any other panic is reported under key+"/panic@<gmsm frame>". Returns false
+// when the call did not complete.
+func (w *work) guarded(t *engine.T, key string, desc func() string, f func()) (ok bool) {
+	old := debug.SetPanicOnFault(true)
+	defer func() {
+		debug.SetPanicOnFault(old)
+		r := recover()
+		if r == nil {
+			return
+		}
+		ok = false
+		frame := gmsmFrame(string(debug.Stack()))
+		if a, isFault := r.(interface{ Addr() uintptr }); isFault {
+			for _, p := range w.pages {
+				if a.Addr() >= p.start && a.Addr() < p.start+4096 {
+					t.Fail(key+"/access-past-end-of-slice", "%s: memory access crossing the end of the %s slice handed to the library (fault on the guard page behind it, offset %d) in %s", desc(), p.name, a.Addr()-p.start, frame)
+					return
+				}
+			}
+			t.Fail(key+"/fault@"+frame, "%s: fault at unexpected address %#x: %v", desc(), a.Addr(), r)
+			return
+		}
+		t.Fail(key+"/panic@"+frame, "%s: panic: %v", desc(), r)
+	}()
+	f()
+	return true
+}
+
+// gmsmFrame returns the innermost function of the gmsm module (or of crypto/...) on a stack dump.
+func gmsmFrame(stack string) string {
+	fallback := "unknown"
+	for _, l := range strings.Split(stack, "\n") {
+		if l == "" || l[0] == '\t' || strings.HasPrefix(l, "goroutine ") {
+			continue
+		}
+		fn := l
+		if i := strings.LastIndex(fn, "("); i > 0 {
+			fn = fn[:i]
+		}
+		if strings.HasPrefix(fn, "github.com/emmansun/gmsm/") {
+			return strings.TrimPrefix(fn, "github.com/emmansun/gmsm/")
+		}
+		if fallback == "unknown" && strings.HasPrefix(fn, "crypto/") {
+			fallback = fn
+		}
+	}
+	return fallback
 }
 
 const canary = 32
 
 func newWork(maxMsg, maxNonce, maxAAD int) *work {
 	w := &work{maxMsg: maxMsg}
-	w.out = w.pool.Get(canary + len(prefix) + maxMsg + 16)
-	w.ip = w.pool.Get(canary + maxMsg + 16 + 1)
-	w.ct = w.pool.Get(canary + maxMsg + 16 + 1)
-	w.nonce = w.pool.Get(maxNonce)
-	w.aad = w.pool.Get(maxAAD + 1)
+	w.out = w.get("dst", canary+len(prefix)+maxMsg+16)
+	w.ip = w.get("in-place-buffer", canary+maxMsg+16+1)
+	w.ct = w.get("ciphertext", canary+maxMsg+16+1)
+	w.nonce = w.get("nonce", maxNonce)
+	w.aad = w.get("aad", maxAAD+1)
 	for i := range w.out {
 		w.out[i] = spareFill
 	}
@@ -89,12 +159,20 @@ func itoa(n int) string {
 	return string(b[i:])
 }
 
+// modeClass is the dst-mode part of a finding key: aliasing (in place) or not.
+func modeClass(mode string) string {
+	if mode == "inplace" {
+		return "inplace"
+	}
+	return "disjoint"
+}
+
 // checkSealed compares a Seal result with prefix pre against the reference output.
 func checkSealed(t *engine.T, ci *callInfo, mode string, ret, pre []byte) {
 	want := ci.want
-	k := ci.kp + "/seal(" + mode + ")"
+	k := ci.kp + "/seal(" + modeClass(mode) + ")"
 	if len(ret) != len(pre)+len(want) {
-		t.Fail(k+"/length", "%s: Seal returned %d bytes, want %d+%d", ci.describe(), len(ret), len(pre), len(want))
+		t.Fail(k+"/length", "dst mode "+mode+", %s: Seal returned %d bytes, want %d+%d", ci.describe(), len(ret), len(pre), len(want))
 		return
 	}
 	if !eq(ret[:len(pre)], pre) {
@@ -106,7 +184,7 @@ func checkSealed(t *engine.T, ci *callInfo, mode string, ret, pre []byte) {
 		if d >= len(want)-ci.ts {
 			what = "tag-mismatch"
 		}
-		t.Fail(k+"/"+what, "%s: first difference at byte %d (block %d, tag starts at %d); got %s want %s", ci.describe(), d, d/16, len(want)-ci.ts, engine.Hex(got), engine.Hex(want))
+		t.Fail(k+"/"+what, "dst mode "+mode+", %s: first difference at byte %d (block %d, tag starts at %d); got %s want %s", ci.describe(), d, d/16, len(want)-ci.ts, engine.Hex(got), engine.Hex(want))
 	}
 }
 
@@ -114,28 +192,33 @@ func checkSealed(t *engine.T, ci *callInfo, mode string, ret, pre []byte) {
 func (w *work) sealAll(t *engine.T, a cipher.AEAD, ci *callInfo) {
 	n, ts := len(ci.pt), ci.ts
 	pt := ci.pt
+	key := ci.kp + "/seal"
+	var ret []byte
 	// nil dst
-	ret := a.Seal(nil, ci.nonce, pt, ci.aad)
-	checkSealed(t, ci, "nil", ret, nil)
+	if w.guarded(t, key, ci.describe, func() { ret = a.Seal(nil, ci.nonce, pt, ci.aad) }) {
+		checkSealed(t, ci, "nil", ret, nil)
+	}
 	// prefix + exactly fitting capacity (the appended bytes end at the guard page)
 	k := len(prefix) + n + ts
 	reg := tail(w.out, k)
 	copy(reg, prefix)
-	ret = a.Seal(reg[:len(prefix)], ci.nonce, pt, ci.aad)
-	checkSealed(t, ci, "prefix", ret, prefix)
+	if w.guarded(t, key, ci.describe, func() { ret = a.Seal(reg[:len(prefix)], ci.nonce, pt, ci.aad) }) {
+		checkSealed(t, ci, "prefix", ret, prefix)
+	}
 	if !eq(reg[:len(prefix)], prefix) {
-		t.Fail(ci.kp+"/seal(prefix)/prefix-modified", "%s: the caller's dst[:len(dst)] %x became %x", ci.describe(), prefix, reg[:len(prefix)])
+		t.Fail(ci.kp+"/seal(disjoint)/prefix-modified", "%s: the caller's dst[:len(dst)] %x became %x", ci.describe(), prefix, reg[:len(prefix)])
 	}
 	if !canaryOK(w.out, k) {
-		t.Fail(ci.kp+"/seal(prefix)/write-before-dst", "%s: bytes in front of dst were modified", ci.describe())
+		t.Fail(ci.kp+"/seal(disjoint)/write-before-dst", "%s: bytes in front of dst were modified", ci.describe())
 	}
 	refill(w.out, k)
 	// in place
 	k = n + ts
 	buf := tail(w.ip, k)
 	copy(buf, pt)
-	ret = a.Seal(buf[:0], ci.nonce, buf[:n], ci.aad)
-	checkSealed(t, ci, "inplace", ret, nil)
+	if w.guarded(t, key, ci.describe, func() { ret = a.Seal(buf[:0], ci.nonce, buf[:n], ci.aad) }) {
+		checkSealed(t, ci, "inplace", ret, nil)
+	}
 	if !canaryOK(w.ip, k) {
 		t.Fail(ci.kp+"/seal(inplace)/write-before-dst", "%s: bytes in front of the buffer were modified", ci.describe())
 	}
@@ -143,18 +226,19 @@ func (w *work) sealAll(t *engine.T, a cipher.AEAD, ci *callInfo) {
 	// prefix + capacity one byte too small: Seal has to move to a new array and must keep the prefix
 	d := make([]byte, len(prefix), len(prefix)+n+ts-1)
 	copy(d, prefix)
-	ret = a.Seal(d, ci.nonce, pt, ci.aad)
-	checkSealed(t, ci, "grow", ret, prefix)
+	if w.guarded(t, key, ci.describe, func() { ret = a.Seal(d, ci.nonce, pt, ci.aad) }) {
+		checkSealed(t, ci, "grow", ret, prefix)
+	}
 	if !eq(d, prefix) {
-		t.Fail(ci.kp+"/seal(grow)/prefix-modified", "%s: the caller's dst[:len(dst)] %x became %x", ci.describe(), prefix, d)
+		t.Fail(ci.kp+"/seal(disjoint)/prefix-modified", "%s: the caller's dst[:len(dst)] %x became %x", ci.describe(), prefix, d)
 	}
 	t.Eval(4)
 }
 
 func checkOpened(t *engine.T, ci *callInfo, mode string, ret []byte, err error, pre []byte) {
-	k := ci.kp + "/open(" + mode + ")"
+	k := ci.kp + "/open(" + modeClass(mode) + ")"
 	if err != nil {
-		t.Fail(k+"/rejected", "%s: Open of the reference ciphertext failed: %v (ciphertext||tag %s)", ci.describe(), err, engine.Hex(ci.want))
+		t.Fail(k+"/rejected", "dst mode "+mode+", %s: Open of the reference ciphertext failed: %v (ciphertext||tag %s)", ci.describe(), err, engine.Hex(ci.want))
 		return
 	}
 	if len(ret) != len(pre)+len(ci.pt) {
@@ -165,7 +249,7 @@ func checkOpened(t *engine.T, ci *callInfo, mode string, ret []byte, err error, 
 		t.Fail(k+"/prefix-modified", "%s: dst prefix %x became %x", ci.describe(), pre, ret[:len(pre)])
 	}
 	if d := engine.FirstDiff(ret[len(pre):], ci.pt); d >= 0 {
-		t.Fail(k+"/plaintext-mismatch", "%s: first difference at byte %d (block %d); got %s want %s", ci.describe(), d, d/16, engine.Hex(ret[len(pre):]), engine.Hex(ci.pt))
+		t.Fail(k+"/plaintext-mismatch", "dst mode "+mode+", %s: first difference at byte %d (block %d); got %s want %s", ci.describe(), d, d/16, engine.Hex(ret[len(pre):]), engine.Hex(ci.pt))
 	}
 }
 
@@ -174,28 +258,34 @@ func (w *work) openAll(t *engine.T, a cipher.AEAD, ci *callInfo) {
 	n, ts := len(ci.pt), ci.ts
 	src := tail(w.ct, n+ts)
 	copy(src, ci.want)
+	key := ci.kp + "/open"
+	var ret []byte
+	var err error
 	// nil dst
-	ret, err := a.Open(nil, ci.nonce, src, ci.aad)
-	checkOpened(t, ci, "nil", ret, err, nil)
+	if w.guarded(t, key, ci.describe, func() { ret, err = a.Open(nil, ci.nonce, src, ci.aad) }) {
+		checkOpened(t, ci, "nil", ret, err, nil)
+	}
 	// prefix + exactly fitting capacity
 	k := len(prefix) + n
 	reg := tail(w.out, k)
 	copy(reg, prefix)
-	ret, err = a.Open(reg[:len(prefix)], ci.nonce, src, ci.aad)
-	checkOpened(t, ci, "prefix", ret, err, prefix)
+	if w.guarded(t, key, ci.describe, func() { ret, err = a.Open(reg[:len(prefix)], ci.nonce, src, ci.aad) }) {
+		checkOpened(t, ci, "prefix", ret, err, prefix)
+	}
 	if !eq(reg[:len(prefix)], prefix) {
-		t.Fail(ci.kp+"/open(prefix)/prefix-modified", "%s: the caller's dst[:len(dst)] %x became %x", ci.describe(), prefix, reg[:len(prefix)])
+		t.Fail(ci.kp+"/open(disjoint)/prefix-modified", "%s: the caller's dst[:len(dst)] %x became %x", ci.describe(), prefix, reg[:len(prefix)])
 	}
 	if !canaryOK(w.out, k) {
-		t.Fail(ci.kp+"/open(prefix)/write-before-dst", "%s: bytes in front of dst were modified", ci.describe())
+		t.Fail(ci.kp+"/open(disjoint)/write-before-dst", "%s: bytes in front of dst were modified", ci.describe())
 	}
 	refill(w.out, k)
 	// prefix + capacity too small
 	if n > 0 {
 		d := make([]byte, len(prefix), len(prefix)+n-1)
 		copy(d, prefix)
-		ret, err = a.Open(d, ci.nonce, src, ci.aad)
-		checkOpened(t, ci, "grow", ret, err, prefix)
+		if w.guarded(t, key, ci.describe, func() { ret, err = a.Open(d, ci.nonce, src, ci.aad) }) {
+			checkOpened(t, ci, "grow", ret, err, prefix)
+		}
 		t.Eval(1)
 	}
 	if !eq(src, ci.want) {
@@ -203,14 +293,15 @@ func (w *work) openAll(t *engine.T, a cipher.AEAD, ci *callInfo) {
 	}
 	if !canaryOK(w.ct, n+ts) {
 		t.Fail(ci.kp+"/open/write-before-src", "%s: bytes in front of the ciphertext were modified", ci.describe())
-		refill(w.ct, n+ts)
 	}
+	refill(w.ct, n+ts)
 	// in place
 	k = n + ts
 	buf := tail(w.ip, k)
 	copy(buf, ci.want)
-	ret, err = a.Open(buf[:0], ci.nonce, buf, ci.aad)
-	checkOpened(t, ci, "inplace", ret, err, nil)
+	if w.guarded(t, key, ci.describe, func() { ret, err = a.Open(buf[:0], ci.nonce, buf, ci.aad) }) {
+		checkOpened(t, ci, "inplace", ret, err, nil)
+	}
 	if !canaryOK(w.ip, k) {
 		t.Fail(ci.kp+"/open(inplace)/write-before-dst", "%s: bytes in front of the buffer were modified", ci.describe())
 	}
@@ -239,7 +330,8 @@ func (tp *tamperer) try(field, desc string, nonce, ctT, aad []byte) {
 	if outLen < 0 {
 		outLen = 0
 	}
-	k := tp.kp + "/tamper-" + field
+	k := tp.kp + "/tamper"
+	kAcc := tp.kp + "/tamper-" + field + "/accepted"
 	verdict := 0 // 0 unknown, 1 reference rejects, 2 reference accepts (a genuine collision / untampered)
 	refRejects := func() bool {
 		if verdict == 0 {
@@ -250,53 +342,59 @@ func (tp *tamperer) try(field, desc string, nonce, ctT, aad []byte) {
 		}
 		return verdict == 1
 	}
+	describe := func() string { return tp.ci.describe() + " " + desc }
+	var ret []byte
+	var err error
 	// dst = prefix + spare capacity prefilled with 0xAA, exactly fitting
 	src := tail(w.ct, m)
 	copy(src, ctT)
 	kk := len(prefix) + outLen
 	reg := tail(w.out, kk)
 	copy(reg, prefix)
-	ret, err := tp.a.Open(reg[:len(prefix)], nonce, src, aad)
-	if err == nil {
-		if refRejects() {
-			t.Fail(k+"/accepted", "%s %s: Open(dst=prefix) accepted the corrupted input and returned %d bytes", tp.ci.describe(), desc, len(ret))
+	if w.guarded(t, tp.kp+"/open", describe, func() { ret, err = tp.a.Open(reg[:len(prefix)], nonce, src, aad) }) {
+		if err == nil {
+			if refRejects() {
+				t.Fail(kAcc, "%s: Open(dst=prefix) accepted the corrupted input and returned %d bytes", describe(), len(ret))
+			} else {
+				t.Outcome("tamper/reference-accepts-too")
+			}
 		} else {
-			t.Outcome("tamper/reference-accepts-too")
+			if ret != nil {
+				t.Fail(k+"/non-nil-result", "%s: Open returned an error together with a non-nil slice of %d bytes", describe(), len(ret))
+			}
+			if !allEq(reg[len(prefix):], 0) {
+				t.Fail(k+"/output-not-zeroed", "%s: after the failed Open the would-be output region dst[len(dst):+%d] holds %s", describe(), outLen, engine.Hex(reg[len(prefix):]))
+			}
+			t.Outcome("tamper/rejected")
 		}
-	} else {
-		if ret != nil {
-			t.Fail(k+"/non-nil-result", "%s %s: Open returned an error together with a non-nil slice of %d bytes", tp.ci.describe(), desc, len(ret))
-		}
-		if !allEq(reg[len(prefix):], 0) {
-			t.Fail(k+"/output-not-zeroed(prefix)", "%s %s: after the failed Open the would-be output region dst[len(dst):+%d] holds %s", tp.ci.describe(), desc, outLen, engine.Hex(reg[len(prefix):]))
-		}
-		t.Outcome("tamper/rejected")
 	}
 	if !eq(reg[:len(prefix)], prefix) {
-		t.Fail(k+"/prefix-modified", "%s %s: dst[:len(dst)] modified by the failed Open", tp.ci.describe(), desc)
+		t.Fail(k+"/prefix-modified", "%s: dst[:len(dst)] modified by the failed Open", describe())
 	}
 	if !canaryOK(w.out, kk) {
-		t.Fail(k+"/write-before-dst", "%s %s: bytes in front of dst were modified", tp.ci.describe(), desc)
+		t.Fail(k+"/write-before-dst", "%s: bytes in front of dst were modified", describe())
 	}
 	refill(w.out, kk)
+	refill(w.ct, m)
 	// in place
 	buf := tail(w.ip, m)
 	copy(buf, ctT)
-	ret, err = tp.a.Open(buf[:0], nonce, buf, aad)
-	if err == nil {
-		if refRejects() {
-			t.Fail(k+"/accepted", "%s %s: Open(in place) accepted the corrupted input and returned %d bytes", tp.ci.describe(), desc, len(ret))
-		}
-	} else {
-		if ret != nil {
-			t.Fail(k+"/non-nil-result", "%s %s: Open returned an error together with a non-nil slice of %d bytes", tp.ci.describe(), desc, len(ret))
-		}
-		if !allEq(buf[:outLen], 0) {
-			t.Fail(k+"/output-not-zeroed(inplace)", "%s %s: after the failed in-place Open the output region holds %s", tp.ci.describe(), desc, engine.Hex(buf[:outLen]))
+	if w.guarded(t, tp.kp+"/open", describe, func() { ret, err = tp.a.Open(buf[:0], nonce, buf, aad) }) {
+		if err == nil {
+			if refRejects() {
+				t.Fail(kAcc, "%s: Open(in place) accepted the corrupted input and returned %d bytes", describe(), len(ret))
+			}
+		} else {
+			if ret != nil {
+				t.Fail(k+"/non-nil-result", "%s: Open returned an error together with a non-nil slice of %d bytes", describe(), len(ret))
+			}
+			if !allEq(buf[:outLen], 0) {
+				t.Fail(k+"/output-not-zeroed", "%s: after the failed in-place Open the output region holds %s", describe(), engine.Hex(buf[:outLen]))
+			}
 		}
 	}
 	if !canaryOK(w.ip, m) {
-		t.Fail(k+"/write-before-dst", "%s %s: bytes in front of the in-place buffer were modified", tp.ci.describe(), desc)
+		t.Fail(k+"/write-before-dst", "%s: bytes in front of the in-place buffer were modified", describe())
 	}
 	refill(w.ip, m)
 	t.Eval(2)
@@ -314,8 +412,13 @@ func subsFor(b byte, thorough bool) []byte {
 func (tp *tamperer) all(nonce, aad, ct []byte, thorough bool) {
 	ts := tp.ts
 	// sanity: the untampered input opens (otherwise the rejections below would be vacuous)
-	if _, err := tp.a.Open(nil, nonce, ct, aad); err != nil {
-		tp.t.Fail(tp.kp+"/open(nil)/rejected", "%s: Open of the reference ciphertext failed: %v", tp.ci.describe(), err)
+	var err0 error
+	src0 := tail(tp.w.ct, len(ct))
+	copy(src0, ct)
+	done := tp.w.guarded(tp.t, tp.kp+"/open", tp.ci.describe, func() { _, err0 = tp.a.Open(nil, nonce, src0, aad) })
+	refill(tp.w.ct, len(ct))
+	if done && err0 != nil {
+		tp.t.Fail(tp.kp+"/open(disjoint)/rejected", "%s: Open of the reference ciphertext failed: %v", tp.ci.describe(), err0)
 		return
 	}
 	for i := range nonce {
